@@ -158,6 +158,35 @@ fn sections(tier: Tier, seed: u64) -> Vec<(&'static str, Box<dyn Fn(Emit)>)> {
             }
         }
     })));
+    v.push(("large-inputs", Box::new(move |e| {
+        let p = c08::Params::new(seed);
+        let sizes: [usize; 8] = [4096, 8191, 8192, 8193, 16384, 16385, 65536, 65537];
+        for &n in &sizes {
+            let m = cval(seed, 3, n);
+            for (outlen, key) in [(32usize, None), (64, None), (32, Some(&p.key32[..])), (64, Some(&p.key32[..16]))] {
+                let mut o = vec![0u8; outlen];
+                crypto_generichash(&mut o, &m, key).unwrap();
+                e(format!("gh/{}/{}/{}", n, outlen, key.map(|k| k.len()).unwrap_or(0)), o);
+            }
+            let mut d = [0u8; 64];
+            crypto_hash_sha512(&mut d, &m);
+            e(format!("sha512/{}", n), d.to_vec());
+        }
+        // streaming with large pieces: all 3-piece sequences over the large alphabet
+        let alpha: [usize; 7] = [0, 1, 128, 8191, 8192, 8193, 16385];
+        for i in [c08::IFACES[1], c08::IFACES[4], c08::IFACES[6], c08::IFACES[7], c08::IFACES[8], c08::IFACES[12]] {
+            for a in alpha {
+                for b in alpha {
+                    for c in alpha {
+                        let n = a + b + c;
+                        let msg: Vec<u8> = (0..n).map(|x| (x % 251) as u8 ^ 0x5a).collect();
+                        let r = c08::incremental(i, &p, &msg, &[a, a + b]).unwrap_or_else(|p| p.into_bytes());
+                        e(format!("{:?}/{}/{}/{}", i, a, b, c), r);
+                    }
+                }
+            }
+        }
+    })));
     v.push(("boxes", Box::new(move |e| {
         let ks = Keys::make(seed, 3, 2);
         for len in 0..=130usize {
